@@ -5,7 +5,8 @@ mutex, send outside it selecting on entry.closed, remove by entry identity, pend
 and spec/SSHForward_Old.tla (faithful to the code before the fix: send on the 1-buffered channel while
 holding the mutex, remove by address, plain receive in Accept).  Same variables and property names.
 
-1. TLC model-checks SSHForward exhaustively (R1 exact delivery / spurious never queued, R2 Close
+1. TLC model-checks SSHForward exhaustively (R1 exact delivery / spurious never queued / every open decided:
+   delivered or rejected, none left without an answer once its listener is closed, R2 Close
    returns -- temporal and as "never quiescent with a Close pending", R3 Accept after Close errs and
    returns, no blocking channel operation under the mutex, nothing left queued for a closed listener).
 2. TLC checks that SSHForward_Old violates R2 and R3 (and R3 with duplicate addresses) -- the model of
@@ -113,6 +114,9 @@ def run(ctx):
     for cfg in old_expect:
         jobs.append(("old:" + cfg, (lambda cfg=cfg: ctx.tlc("SSHForward_Old_MC", cfg=cfg, workers=2, timeout=600, expect_violation=True,
                                                             note="model of the current code: counterexample expected", **SMALL))))
+    # sharpness of the decidedness invariant: a design whose forward() swallows the closed case must be caught by TLC
+    jobs.append(("sharp:LostReject", lambda: ctx.tlc("SSHForward_MC", cfg="SSHForward_LostReject.cfg", workers=2, timeout=600, expect_violation=True, count=False,
+                                                     note="DSendClosed overridden by DSendClosedLost: R1_Decided must be violated", **SMALL)))
     if not q:
         jobs.append(("old:R1", lambda: ctx.tlc_must_hold("SSHForward_Old_MC", cfg="SSHForward_Old_R1.cfg", workers=W, timeout=1500,
                                                          note="current code satisfies the safety part of R1")))
@@ -141,6 +145,8 @@ def run(ctx):
         r = res["old:" + cfg]
         if r.violated != inv:
             raise vlib.Infra("SSHForward_Old/%s: expected the model of the current code to violate %s, TLC says %r" % (cfg, inv, r.violated))
+    if res["sharp:LostReject"].violated != "R1_Decided":
+        raise vlib.Infra("SSHForward_LostReject: expected R1_Decided to be violated, TLC says %r" % res["sharp:LostReject"].violated)
     ctx.extra["c37_old_model_counterexamples"] = {c: v for c, v in old_expect.items()}
     if "cov" in res:
         z = _zero_cov(res["cov"])
@@ -165,6 +171,25 @@ def run(ctx):
             n_old += c["model"] == "old"
     cases.sort(key=lambda c: (c["model"] != "old", json.dumps(c["laddr"], sort_keys=True), _sched(c)))
     ctx.log("replaying %d schedules (%d from the current-code model's stuck states)" % (len(cases), n_old))
+    # vacuity guard: schedules in which Close(l) is issued while >= 2 opens for l's address are unanswered and no Accept is
+    # pending (one queued, one parked inside forward()) must be part of the replay
+    n_parked = 0
+    for c in cases:
+        hit = False
+        for h in c["hist"]:
+            e = h["ev"]
+            if e["e"] != "close":
+                continue
+            t = c["laddr"][e["l"]]
+            sent = [x["ev"]["o"] for x in c["hist"] if x["ev"]["e"] == "open" and x["ev"]["t"] == t and x is not h]
+            pend = [o for o in sent if o - 1 < len(h["pre"]["ost"]) and h["pre"]["ost"][o - 1] in ("inflight", "buffered")]
+            waiting = any(a["l"] == e["l"] and a["res"] == "waiting" for a in h["pre"]["acalls"])
+            if len(pend) >= 2 and not waiting:
+                hit = True
+        n_parked += hit
+    ctx.extra["c37_schedules_close_with_parked_forward"] = n_parked
+    if n_parked == 0:
+        raise vlib.Infra("no generated schedule closes a listener while a forward is parked in forward(): the decidedness clause would not be exercised")
 
     # ---- 3b: replay on the real code
     r1 = ctx.go_test("c37", "TestReplay", cases=cases, timeout=1500)
